@@ -501,3 +501,60 @@ func findPkg(pkgs []*ssaPackage, dir string) *ssaPackage {
 	}
 	return nil
 }
+
+// ReplayOne replays a single counterexample file natively and prints the outcome.
+func ReplayOne(opt Options, path string) int {
+	pkgsAll, err := scanHarnesses(opt.Verif)
+	if err != nil {
+		fmt.Fprintln(os.Stderr, err)
+		return 2
+	}
+	b, err := os.ReadFile(path)
+	if err != nil {
+		fmt.Fprintln(os.Stderr, err)
+		return 2
+	}
+	var rf ReplayFile
+	if err := json.Unmarshal(b, &rf); err != nil {
+		fmt.Fprintln(os.Stderr, err)
+		return 2
+	}
+	for _, hp := range pkgsAll {
+		for _, f := range hp.funcs {
+			if f != rf.Harness {
+				continue
+			}
+			dir, _ := os.MkdirTemp("", "verif-cex-")
+			defer os.RemoveAll(dir)
+			os.WriteFile(filepath.Join(dir, filepath.Base(path)), b, 0o644)
+			res, out, err := NativeReplay(opt.Repo, opt.Verif, hp.dir, hp.name, hp.files, hp.funcs, dir, 5*time.Minute)
+			if opt.Verbose || err != nil {
+				fmt.Println(tail(out, 8000))
+			}
+			for _, line := range strings.Split(out, "\n") {
+				if strings.Contains(line, "[verifPrint]") {
+					fmt.Println(line)
+				}
+			}
+			r, ok := res[filepath.Base(path)]
+			if !ok {
+				fmt.Println("no replay result")
+				return 2
+			}
+			fmt.Printf("replay %s: harness=%s status=%s failed=%v panic=%q (expected: %s %s)\n", path, rf.Harness, r.Status, r.Failed, r.Panic, rf.Kind, rf.Label)
+			for _, l := range r.Failed {
+				if l == rf.Label {
+					fmt.Printf("VIOLATION property=%s replay=%s\n", rf.Property, path)
+					return 1
+				}
+			}
+			if rf.Kind == "panic" && r.Status == "panic" {
+				fmt.Printf("VIOLATION property=%s replay=%s\n", rf.Property, path)
+				return 1
+			}
+			return 0
+		}
+	}
+	fmt.Fprintln(os.Stderr, "harness not found:", rf.Harness)
+	return 2
+}
